@@ -4,11 +4,20 @@
 def setup(register, COMMON_TB):
     register(
         "C10", coq="C10", pkg="./internal/framework/events/", test="TestVerifC10",
+        extra=[dict(pkg="./internal/framework/controller/", test="TestVerifC10Feed")],
         rule="scripts over {sync send, concurrent burst, send racing a release, release, quiesce, cancel, pause, yield}: "
              "a corpus, all words over {S,R,X,Q,C} up to length 4 (quick) / 6 (thorough), and random longer scripts "
              "(size ramps with the index; start-up batch of 0-3 events with spare capacity); non-trivial = at least 3 "
              "delivered events, at least 3 handler calls and a coalesced batch of 2 or more events; distinct = distinct "
-             "(script, observed log)",
+             "(script, observed log). Second part (TestVerifC10Feed, evaluated by C10/Feed.v): two real Reconcilers (HTTPRoute, "
+             "Gateway; one of them with a NamespacedNameFilter; one worker each, running concurrently) feed the real EventLoop; "
+             "scripts over {write object with a fresh marker, delete object, Reconcile request sync/async/one per reconciler at "
+             "once (object found / not found / Get fails and the request is retried / name filtered), block/free/release the "
+             "handler, quiesce, cancel, yield, pause}: a corpus of 10 and random scripts (300 quick / 6000 thorough, length "
+             "ramps with the index, 2-4 names per kind, 0-2 initial objects forming the start-up batch); the handler records "
+             "kind, namespaced name and marker (generation = resourceVersion = annotation = spec) of every event when entered, "
+             "again before it returns, and of every event it ever received after each call and at the end; non-trivial = at "
+             "least 3 events handled, a batch of 2 or more, events of both kinds",
         race=True,
         timeout={"quick": 600, "thorough": 3600},
         trusted_base=COMMON_TB + [
@@ -18,13 +27,26 @@ def setup(register, COMMON_TB):
             "the harness sees handler entry/exit, send start/completion, cancel and the return of Start; the loop's own "
             "actions (receive, take handlingDone, see ctx.Done) are placed by the trace-inclusion search in C10.Check",
             "liveness is observed with a 10 s bound (OStall); the theorems about progress are enabledness statements about the model",
-            "the preparer is a fake returning a fresh slice; FirstEventBatchPreparerImpl and the controller-runtime watches "
-            "that feed eventCh (reconciler.go) are outside this check",
+            "the preparer is a fake returning a fresh slice; FirstEventBatchPreparerImpl is outside this check",
+            "second part: Reconciler.Reconcile (reconciler.go) is driven for real; the Getter is a fake store (a map written by "
+            "the script) that fills the object and logs what it held under the same mutex under which the handler reads the "
+            "objects, so the log is totally ordered and the harness is race-free even if the code shares objects; one worker "
+            "per Reconciler stands for controller-runtime's MaxConcurrentReconciles=1, and a failed call is retried once at "
+            "once in place of the rate-limited requeue; register.go's controller-runtime plumbing (watches, predicates, "
+            "the workqueue and its de-duplication, the cache behind the real Getter) stays outside this check",
+            "second part, modelled not verified: a Reconcile that returned before cancel() was called can only have left its "
+            "select through the send; an event's identity is its pointer (index in the model's heap)",
+            "C10/Feed.v check_case: the handled events are attributed to Reconcile calls by a guarded interleaving search; the "
+            "model side recomputes every event with Feed.reconcile from the script's store as replayed from the log, the oracle "
+            "side takes it from the Getter's own observation",
         ],
         assumptions=[
             "events still in nextBatch when Start returns after cancellation are dropped by design (the process is exiting); "
             "'exactly once' is proved as: handled batches are a prefix of start-up batch ++ delivered events, and equal to it "
             "whenever the loop is idle",
             "the handler does not retain the batch slice after HandleEventBatch returns",
+            "second part: after cancel() a Reconcile may drop its event (reconciler.go select on ctx.Done) and Start drops what "
+            "is queued; completeness is demanded at quiescent instants before cancel(), order and no-duplication always",
+            "second part: a Get error that Reconcile does not return (so that nothing is requeued) counts as a lost event",
         ],
     )
